@@ -41,7 +41,11 @@ def generate(ctx):
                      bias=rng.random() < 0.5)
         elif kind == "layer":
             d.update(layer=["serial", "biclique", "recurrent"][(i // len(KINDS)) % 3], neuron=rng.choice(fac.NEURONS),
-                     syn=rng.choice(fac.SYNAPSES), delay=rng.choice([None, 2]), combine=rng.choice(["sum", "mean", "max"]))
+                     syn=rng.choice(fac.SYNAPSES), delay=rng.choice([None, 2]), combine=rng.choice(["sum", "mean", "max"]),
+                     freeze_via=["eval", "kwargs"][(i // (3 * len(KINDS))) % 2],
+                     neuron2=rng.choice(["LIF", "ALIF", "GLIF2", "Izhikevich", "AdEx"]))
+            if d["freeze_via"] == "kwargs":
+                d["neuron2"] = rng.choice(["ALIF", "GLIF2", "Izhikevich", "AdEx"])     # something to freeze
             d["dtype"] = "float32"
         else:
             d.update(trainer=tr.TRAINERS[(i // len(KINDS)) % len(tr.TRAINERS)], conn=rng.choice(["dense", "direct", "lateral", "conv"]),
@@ -219,13 +223,18 @@ def _connection(ctx, desc):
 
 def _mk_layer(desc, B):
     from rv.monitors import c17
-    d = {"kind": desc["layer"], "dt": desc["dt"], "B": B, "seed": desc["seed"], "neuron": desc["neuron"], "neuron2": "LIF",
+    d = {"kind": desc["layer"], "dt": desc["dt"], "B": B, "seed": desc["seed"], "neuron": desc["neuron"], "neuron2": desc.get("neuron2", "LIF"),
          "syn": desc["syn"], "delay": desc["delay"], "bias": False, "conn": "dense", "transform": None, "conns": ["dense", "direct"],
          "nneurons": 2, "combine": desc["combine"], "post": False, "pre": False, "trainable_feedback": False, "transforms": False,
          "capture": False}
+    if desc.get("freeze_via") == "kwargs":
+        # adaptation frozen by routing adapt=False to every neuron group through the layer's keyword channel (non-default
+        # component names), the neurons themselves stay in training mode
+        d.update(names=True, nkw=True, nkw_all=True, nkw_dict={"adapt": False})
     parts = c17._Parts(d)
     for n in parts.neurons.values():
-        n.eval()   # adaptation frozen (adapt=None follows the training flag)
+        if desc.get("freeze_via") != "kwargs" or not hasattr(n, "tc_adaptation") and not hasattr(n, "rc_adaptation"):
+            n.eval()   # adaptation frozen (adapt=None follows the training flag)
     return d, parts, c17._layer(d, parts)
 
 
